@@ -5,7 +5,9 @@ import json, os, shutil, sys
 VERIF = os.path.dirname(os.path.dirname(os.path.abspath(__file__)))
 src, sid, prop, needs, caught = sys.argv[1:6]
 dst = os.path.join(VERIF, 'seeded', sid)
-os.makedirs(dst, exist_ok=True)
+if os.path.exists(dst):
+    sys.exit('refusing to overwrite ' + dst)
+os.makedirs(dst)
 for f in os.listdir(src):
     if f in ('demo',) or f.endswith('.o') or os.path.isdir(os.path.join(src, f)):
         continue
